@@ -89,6 +89,39 @@ theorem mem_addArguments {m kw : List (String × Val)} {p : String × Val} (h : 
   · exact Or.inl h
   · exact Or.inr ⟨List.mem_mergeSort.mp h1, h2, h3⟩
 
+/-- the fold only ever appends -/
+theorem subset_foldl_addStep : ∀ (xs m : List (String × Val)) (q : String × Val), q ∈ m → q ∈ xs.foldl addStep m
+  | [], _, _, h => h
+  | x :: xs, m, q, h => by
+    simp only [List.foldl_cons]
+    apply subset_foldl_addStep xs (addStep m x) q
+    unfold addStep
+    split
+    · exact h
+    · exact List.mem_append_left _ h
+
+/-- after the fold, every representable pair of the folded list has its KEY among the result -/
+theorem key_in_foldl_addStep : ∀ (xs m : List (String × Val)) (p : String × Val),
+    p ∈ xs → representable p.2 = true → ∃ q ∈ xs.foldl addStep m, q.1 = p.1
+  | [], _, _, h, _ => nomatch h
+  | x :: xs, m, p, h, hr => by
+    simp only [List.foldl_cons]
+    rcases List.mem_cons.mp h with h | h
+    · subst h
+      by_cases hc : (m.any (fun q => q.1 == p.1) || !representable p.2) = true
+      · simp only [Bool.or_eq_true, List.any_eq_true, beq_iff_eq, Bool.not_eq_true', hr, Bool.true_eq_false, or_false] at hc
+        obtain ⟨q, hq, hk⟩ := hc
+        refine ⟨q, subset_foldl_addStep xs _ q ?_, hk⟩
+        unfold addStep
+        split
+        · exact hq
+        · exact List.mem_append_left _ hq
+      · refine ⟨p, subset_foldl_addStep xs _ p ?_, rfl⟩
+        unfold addStep
+        rw [if_neg hc]
+        exact List.mem_append_right _ List.mem_cons_self
+    · exact key_in_foldl_addStep xs (addStep m x) p h hr
+
 theorem mem_reprPairs {lines : List (String × Val)} {c : List String} {kw : List (String × Val)}
     {p : String × Val} (h : p ∈ reprPairs lines c kw) :
     p ∈ lines ∨ (p ∈ selectKwargs c kw ∧ representable p.2 = true ∧ ∀ q ∈ lines, q.1 ≠ p.1) :=
